@@ -114,7 +114,7 @@ def step (st : St) (line : String) : St × String :=
       let sel := fun k => okeys.contains k
       let keys := (st.out.map (·.1) ++ okeys).eraseDups
       if st.cacheOn then
-        let (out', cache', ran) := buildC generatedFacts mvE2E exec ruleSer pathSer r sel (fun k => st.out.lookup k) (fun q => st.cache.lookup q)
+        let (out', cache', ran) := buildC generatedFacts mvE2E rsE2E exec ruleSer pathSer r sel (fun k => st.out.lookup k) (fun q => st.cache.lookup q)
         let outL := keys.filterMap fun k => (out' k).map fun v => (k, v)
         -- cache keys that can have been added: (k, stamp now in plz-out) for k in order
         let newKeys := okeys.filterMap fun k => (out' k).map fun v => (k, v.2)
